@@ -754,6 +754,42 @@ static carquet_status_t load_dictionary_page_fread(
 }
 
 /* ============================================================================
+ * Helper: retire the retained BYTE_ARRAY page buffer
+ * ============================================================================
+ * Values returned by a read call point into the page they came from and must
+ * stay readable until the next call, even when that call went on to load
+ * further pages.  The buffer is therefore parked, not freed, when a new page
+ * replaces it; carquet_column_read_batch releases parked buffers on entry.
+ */
+
+static void retire_page_data(carquet_column_reader_t* reader) {
+    if (!reader->page_data_for_values) {
+        return;
+    }
+    if (reader->num_retired_pages >= reader->retired_pages_capacity) {
+        int32_t new_cap = reader->retired_pages_capacity ? reader->retired_pages_capacity * 2 : 4;
+        uint8_t** grown = realloc(reader->retired_pages, (size_t)new_cap * sizeof(uint8_t*));
+        if (!grown) {
+            /* Cannot park it: fall back to releasing it now */
+            free(reader->page_data_for_values);
+            reader->page_data_for_values = NULL;
+            return;
+        }
+        reader->retired_pages = grown;
+        reader->retired_pages_capacity = new_cap;
+    }
+    reader->retired_pages[reader->num_retired_pages++] = reader->page_data_for_values;
+    reader->page_data_for_values = NULL;
+}
+
+void carquet_column_reader_release_retired(carquet_column_reader_t* reader) {
+    for (int32_t i = 0; i < reader->num_retired_pages; i++) {
+        free(reader->retired_pages[i]);
+    }
+    reader->num_retired_pages = 0;
+}
+
+/* ============================================================================
  * Helper: Load and decode a new page (mmap path with zero-copy support)
  * ============================================================================
  */
@@ -932,7 +968,7 @@ static carquet_status_t load_next_page_mmap(
      * which persists for the reader's lifetime, so no retention needed. */
     if (decompressed && reader->type == CARQUET_PHYSICAL_BYTE_ARRAY &&
         page_header.data_page_header.encoding == CARQUET_ENCODING_PLAIN) {
-        free(reader->page_data_for_values);
+        retire_page_data(reader);
         reader->page_data_for_values = decompressed;
     } else {
         free(decompressed);
@@ -1116,7 +1152,7 @@ static carquet_status_t load_next_page_fread(
                    page_header.data_page_header.encoding == CARQUET_ENCODING_PLAIN);
 
     if (retain) {
-        free(reader->page_data_for_values);
+        retire_page_data(reader);
         reader->page_data_for_values = page_data;
         /* Free compressed buffer only if it's a separate allocation */
         if (compressed && compressed != page_data) {
